@@ -2084,9 +2084,36 @@ pub fn skeleton_fn(ctx: &mut Ctx, blk: &Block) -> Result<(String, Value), String
     let spec = blk.spec.join("\n");
     let mut text = String::new();
     text.push_str("#[verifier::exec_allows_no_decreases_clause]\n");
-    text.push_str(&format!("pub fn {name}({params_text}) -> (r: {ret})\n{spec}\n{{\n"));
+    // S16: a by-value `mut self` receiver (Verus: "mut self" unsupported) becomes `self` moved into a mutable local
+    // `self__` at the top of the body; the body speaks about `self__` instead
+    let mut_self = params_text.split(',').next().map(|p| p.trim() == "mut self").unwrap_or(false);
+    let params_emit = if mut_self { params_text.replacen("mut self", "self", 1) } else { params_text.clone() };
+    text.push_str(&format!("pub fn {name}({params_emit}) -> (r: {ret})\n{spec}\n{{\n"));
+    if mut_self {
+        text.push_str("    let mut self__ = self;\n");
+    }
     for l in ind(body) {
-        text.push_str(&l);
+        if mut_self {
+            // code part only: the `// src:` comment keeps the source text
+            let (code, comment) = match l.find(" // ") { Some(k) => (&l[..k], &l[k..]), None => (l.as_str(), "") };
+            let mut out = String::new();
+            let b = code.as_bytes();
+            let mut k = 0;
+            while k < b.len() {
+                if code[k..].starts_with("self") && (k == 0 || !(b[k - 1].is_ascii_alphanumeric() || b[k - 1] == b'_')) && !(k + 4 < b.len() && (b[k + 4].is_ascii_alphanumeric() || b[k + 4] == b'_')) {
+                    out.push_str("self__");
+                    k += 4;
+                } else {
+                    let ch = code[k..].chars().next().unwrap();
+                    out.push(ch);
+                    k += ch.len_utf8();
+                }
+            }
+            text.push_str(&out);
+            text.push_str(comment);
+        } else {
+            text.push_str(&l);
+        }
         text.push('\n');
     }
     text.push_str("}\n");
